@@ -32,6 +32,8 @@ def predicting(args):
     k, hook = args['k'], args['hook']
     from artap.individual import Individual
     from artap.surrogate import SurrogateModelPredict
+    import artap.surrogate as SUR
+    stubs.install((SUR, 'math', stubs.math_shim))       # math.isfinite & co. on proxies (a proxy is a finite real)
     prob = ec.make_problem(2, ('minimize',), 0)
     box = {}
 
@@ -64,7 +66,9 @@ def predicting(args):
 
     def body(ctx):
         ec.reset_problem(prob, ctx)
+        prob.h.may_be_inf = bool(args.get('inf'))
         box.update(ctx=ctx, consulted=[], predicted=[], requests=[])
+        returned = []
         model = Model(prob)
         prob.surrogate = model
         model.train_step = [-1, 1, 2, 3][ctx.choice('train_step', 4)]
@@ -94,8 +98,9 @@ def predicting(args):
                 vec, vals, _f = prob.h.calls[-1]
                 ctx.check('true-value-returned-unchanged', Not(ec.same_vec(list(ret), list(vals))) if isinstance(ret, (list, tuple)) else True)
                 ctx.check('objective-called-on-the-request', Not(ec.same_vec(vec, ind.vector)))
-                r_x.append(ind.vector)
-                r_y.append(ret)
+                r_x.append(list(ind.vector))
+                r_y.append(list(ret) if isinstance(ret, (list, tuple)) else ret)       # copies: the oracle must not alias the model's lists
+                returned.append((ret, list(ret) if isinstance(ret, (list, tuple)) else ret))
                 if model.train_step != -1 and r_eval % model.train_step == 0:
                     r_train.append(r_eval)
             ctx.check('evaluation-counter', model.eval_counter != r_eval)
@@ -108,6 +113,10 @@ def predicting(args):
                           Or(*([Not(ec.same_vec(list(a), list(b))) for a, b in zip(model.x_data, r_x)] +
                                [Not(ec.same_vec(list(a), list(b))) for a, b in zip(model.y_data, r_y)])))
             ctx.check('retrained-exactly-at-every-train_step-th-evaluation', model.train_calls != r_train)
+            # multi-step: what an earlier request returned (the list object Job stores as individual.costs) is not
+            # rewritten by later requests / retrainings
+            ctx.check('values-returned-earlier-are-not-modified-later',
+                      Or(*[Not(ec.same_vec(list(obj), cp)) for obj, cp in returned if isinstance(obj, (list, tuple))]) if returned else False)
         ctx.output('evals', model.eval_counter)
         ctx.output('preds', model.predict_counter)
     return body
@@ -143,4 +152,9 @@ def configs(tier):
             out.append({'name': 'predict-k%d-%s' % (k, 'hook' if hook else 'nohook'), 'task': 'predicting',
                         'args': {'k': k, 'hook': hook}, 'weight': 4 ** k if hook else 2 ** k,
                         'split': 48 if (hook and k >= 4) else None, 'engine': {'validate': 20}})
+    for k in ((2, 3) if tier == 'quick' else (2, 3, 4)):
+        out.append({'name': 'predict-k%d-nohook-objective-may-return-inf' % k, 'task': 'predicting',
+                    'args': {'k': k, 'hook': False, 'inf': True}, 'weight': 4 ** k, 'split': 48 if k >= 4 else None, 'engine': {'validate': 20}})
+    out.append({'name': 'predict-k2-hook-objective-may-return-inf', 'task': 'predicting',
+                'args': {'k': 2, 'hook': True, 'inf': True}, 'weight': 40, 'engine': {'validate': 20}})
     return out
